@@ -72,6 +72,24 @@ struct Callable {
     body: Vec<Node>,
     /// index in `body` after which `@content` is placed (mixins only)
     content_at: Option<usize>,
+    /// a second parameter `$o: <that function of the same file>($a)`: its default expression
+    /// is evaluated (and the function's directives executed) exactly when the caller does
+    /// not pass `$o`, before the body runs
+    default_func: Option<usize>,
+}
+
+/// How a call site passes the optional parameter of a callable that has one: derived from the
+/// first argument so that the AST needs no extra field. 0 = not passed, 1 = by keyword, 2 = by position.
+fn opt_form(arg: i64) -> i64 {
+    arg.rem_euclid(3)
+}
+
+fn call_args(c: &Callable, arg: i64) -> String {
+    match (c.default_func, opt_form(arg)) {
+        (Some(_), 1) => format!("{}, $o: 0", arg),
+        (Some(_), 2) => format!("{}, 0", arg),
+        _ => arg.to_string(),
+    }
 }
 
 #[derive(Clone, Debug)]
@@ -404,14 +422,14 @@ impl Printer {
                     self.close(indent);
                 }
                 Node::Include { mixin, arg, content } => match content {
-                    None => self.stmt(indent, &format!("@include {}({})", f.mixins[*mixin].name, arg)),
+                    None => self.stmt(indent, &format!("@include {}({})", f.mixins[*mixin].name, call_args(&f.mixins[*mixin], *arg))),
                     Some(c) => {
-                        self.open(indent, &format!("@include {}({})", f.mixins[*mixin].name, arg));
+                        self.open(indent, &format!("@include {}({})", f.mixins[*mixin].name, call_args(&f.mixins[*mixin], *arg)));
                         self.block(indent + 1, c, f, all);
                         self.close(indent);
                     }
                 },
-                Node::Call { func, arg } => self.stmt(indent, &format!("$_r: {}({})", f.funcs[*func].name, arg)),
+                Node::Call { func, arg } => self.stmt(indent, &format!("$_r: {}({})", f.funcs[*func].name, call_args(&f.funcs[*func], *arg))),
                 Node::Import { file } => {
                     let url = all[*file].path.rsplit('/').next().unwrap().trim_start_matches('_').rsplit_once('.').unwrap().0.to_string();
                     self.stmt(indent, &format!("@import \"{}\"", url));
@@ -490,10 +508,10 @@ impl Printer {
                     }
                 }
                 Node::IncludeForeign { file, mixin, arg, content } => match content {
-                    None => self.stmt(indent, &format!("@include {}({})", all[*file].mixins[*mixin].name, arg)),
+                    None => self.stmt(indent, &format!("@include {}({})", all[*file].mixins[*mixin].name, call_args(&all[*file].mixins[*mixin], *arg))),
                     Some(c) => {
                         // the block is written (and located) in this file, the mixin lives in another
-                        self.open(indent, &format!("@include {}({})", all[*file].mixins[*mixin].name, arg));
+                        self.open(indent, &format!("@include {}({})", all[*file].mixins[*mixin].name, call_args(&all[*file].mixins[*mixin], *arg)));
                         self.block(indent + 1, c, f, all);
                         self.close(indent);
                     }
@@ -507,7 +525,10 @@ impl Printer {
             self.stmt(0, &format!("@use \"{}\" as u{}", url, u));
         }
         for m in &f.mixins {
-            self.open(0, &format!("@mixin {}($a)", m.name));
+            match m.default_func {
+                Some(d) => self.open(0, &format!("@mixin {}($a, $o: {}($a))", m.name, f.funcs[d].name)),
+                None => self.open(0, &format!("@mixin {}($a)", m.name)),
+            }
             match m.content_at {
                 None => self.block(1, &m.body, f, all),
                 Some(at) => {
@@ -522,7 +543,10 @@ impl Printer {
             self.close(0);
         }
         for fun in &f.funcs {
-            self.open(0, &format!("@function {}($a)", fun.name));
+            match fun.default_func {
+                Some(d) => self.open(0, &format!("@function {}($a, $o: {}($a))", fun.name, f.funcs[d].name)),
+                None => self.open(0, &format!("@function {}($a)", fun.name)),
+            }
             self.block(1, &fun.body, f, all);
             self.stmt(1, "@return $a");
             self.close(0);
@@ -547,6 +571,18 @@ struct Exec<'a> {
 impl<'a> Exec<'a> {
     /// Execute the body of function `func` of file `fi` with `$a = arg`; false = an @error stopped everything.
     fn call_fn(&mut self, fi: usize, func: usize, arg: i64) -> bool {
+        self.call_fn_opt(fi, func, arg, true)
+    }
+
+    /// `use_default`: the call site does not pass `$o`, so its default expression is evaluated first
+    fn call_fn_opt(&mut self, fi: usize, func: usize, arg: i64, use_default: bool) -> bool {
+        if use_default {
+            if let Some(d) = self.files[fi].funcs[func].default_func {
+                if !self.call_fn(fi, d, arg) {
+                    return false;
+                }
+            }
+        }
         let body = self.files[fi].funcs[func].body.clone();
         let mut fenv = BTreeMap::new();
         fenv.insert("a".to_string(), arg);
@@ -664,6 +700,11 @@ impl<'a> Exec<'a> {
                     }
                 }
                 Node::Include { mixin, arg, content: c } => {
+                    if let Some(d) = self.files[fi].mixins[*mixin].default_func {
+                        if opt_form(*arg) == 0 && !self.call_fn(fi, d, *arg) {
+                            return false;
+                        }
+                    }
                     let m = &self.files[fi].mixins[*mixin];
                     let mut menv = BTreeMap::new();
                     menv.insert("a".to_string(), *arg);
@@ -692,7 +733,7 @@ impl<'a> Exec<'a> {
                     }
                 }
                 Node::Call { func, arg } => {
-                    if !self.call_fn(fi, *func, *arg) {
+                    if !self.call_fn_opt(fi, *func, *arg, opt_form(*arg) == 0) {
                         return false;
                     }
                 }
@@ -730,6 +771,11 @@ impl<'a> Exec<'a> {
                 }
                 Node::IncludeForeign { file, mixin, arg, content: c } => {
                     // the mixin's directives live in the file that defines it, the content block's in this one
+                    if let Some(d) = self.files[*file].mixins[*mixin].default_func {
+                        if opt_form(*arg) == 0 && !self.call_fn(*file, d, *arg) {
+                            return false;
+                        }
+                    }
                     let m = &self.files[*file].mixins[*mixin];
                     let mut menv = BTreeMap::new();
                     menv.insert("a".to_string(), *arg);
@@ -825,13 +871,15 @@ pub fn gen_script(rng: &mut Rng, root: &str) -> Script {
             g.budget = 6;
             let body = g.block(Where::Mixin, 1, &["a".to_string()], 0, 0, &[], false);
             let content_at = if g.rng.chance(0.4) { Some(g.rng.usize_below(body.len() + 1)) } else { None };
-            mixins.push(Callable { name: format!("m{}x{}", i, m), body, content_at });
+            let default_func = if nfun > 0 && g.rng.chance(0.35) { Some(g.rng.usize_below(nfun)) } else { None };
+            mixins.push(Callable { name: format!("m{}x{}", i, m), body, content_at, default_func });
         }
         let mut funcs = vec![];
         for fnn in 0..nfun {
             g.budget = 5;
             let body = g.block(Where::Function, 1, &["a".to_string()], 0, fnn, &[], false);
-            funcs.push(Callable { name: format!("f{}x{}", i, fnn), body, content_at: None });
+            let default_func = if fnn > 0 && g.rng.chance(0.3) { Some(g.rng.usize_below(fnn)) } else { None };
+            funcs.push(Callable { name: format!("f{}x{}", i, fnn), body, content_at: None, default_func });
         }
         g.budget = 14;
         // only the entry imports (imports of imports would multiply executions; one level is enough here)
